@@ -22,7 +22,12 @@ RULE = ("energies 10^U(3,12) GeV x (EM only / hadronic only / mixed fractions) x
         "window; plus, for the search, ARZ pulses 5e-4..0.13 rad off the cone compared with an independent quadrature "
         "of the convolution integral, and weak showers (hadronic energy 3e-3 GeV..1.6 TeV, EM part absent / dominant / "
         "weak) exactly on the cone (+-arccos(1/n) bitwise), near and off it for all three models (finite, right "
-        "length); a case is non-trivial when the energy is non-zero and the pulse is not cut to all-zero; distinct = "
+        "length); ice models: the AntarcticIce defaults, AntarcticIce with random (n0,k,a), UniformIce, GreenlandIce, "
+        "ArasimIce (index at the vertex differs from the module default); ARZ angles inside the +-4.5e-7 rad on-cone "
+        "window; shower times exactly at the ZHS/AVZ cut |shift| = len(trace) +- 2; call forms (list / tuple times, "
+        "Python-int, numpy-int, numpy-scalar and 0-d-array scalars, keywords, omitted defaults, tuple vertex, the "
+        "aliases AskaryanSignal and ARVZAskaryanSignal), caller-owned arrays, re-gridding with with_times / "
+        "times assignment, and evaluation order with importlib.reload in between; a case is non-trivial when the energy is non-zero and the pulse is not cut to all-zero; distinct = "
         "distinct (model, parameters, grid) tuples")
 LEVEL_TEXT = ("theorems C07_* proved over R for the model text (1/R exactly, evenness in the angle, joint shift, "
               "whole-sample moves (ARZ up to the signal class, sum over showers), zero energy, non-vanishing "
@@ -57,7 +62,18 @@ LEVEL_NOTE = ("floating-point rounding is not modelled (tolerance run, fractiona
               "C07_avz_odd_last_sample_extrapolated proves what it is). ARZ energies at or below the critical "
               "energy give zeros; n_Q = 0 is outside the model's claims. Constants are extracted: a changed literal "
               "regenerates the twin and re-checks the theorems (a benign change of an amplitude constant is, "
-              "correctly, not a violation); a changed code shape fails the extractor closed. Index off-by-ones: a "
+              "correctly, not a violation); a changed code shape fails the extractor closed. Round-4 input classes: 'forms' (every call form / alias / default / re-gridding gives the same "
+              "values, inputs untouched), 'order' (values do not depend on what was evaluated before: family of "
+              "single-ingredient variants evaluated in opposite orders around importlib.reload), 'centre' (ZHS even "
+              "about t0, AVZ odd about floor((t0-times[0])/dt)), 'far_zero' (C07_far_shower_time_zero_{zhs,avz}), "
+              "'raises' (|angle| > pi rejected, exactly pi accepted); implementation calls run under an 8 GiB "
+              "address-space cap so that an absurd allocation is a MemoryError with a replay, not a killed check. "
+              "The cut-off point |shift| > len(trace) itself is only fixed by the model (correspondence), not by a "
+              "relation of the property. The zero-crossing case of the ARZ move is characterised by "
+              "C07_whole_sample_move_arz_zero_crossing_{index,grid} (n_shift moves by m*dt_divider - 1, RAC grid "
+              "advanced by one sub-sample) - no equality of traces holds there. C07_ice_enters_through_vertex_index "
+              "and C07_any_ice_model: theta_c is arccos(1/index) of the supplied ice model at the vertex. "
+              "Index off-by-ones: a "
               "misplacement of the convolution (n_shift += n_Q_negative +- 1, decimation offset, shifted z or t_RAC "
               "grid, wrong LQ_tot) is caught on the implementation alone by the independent-quadrature oracle "
               "'position'; n_shift + 1 *before* t_RAC_vals is computed and n_extra + 1 move / extend the +-10 ns "
@@ -104,8 +120,33 @@ def t0_of(c):
     return float(grid(c)[0] + (c["k"] + c["frac"]) * c["dt"])
 
 
+_ICES = {}
+
+
+def ice_of(c):
+    """the ice model object of a case: None = AntarcticIce() defaults; otherwise a non-default model, so that the
+    index at the vertex (hence theta_c) differs from what the module-level default `pyrex.ice_model.ice` gives"""
+    spec = c.get("ice")
+    if not spec:
+        return ice()
+    key = tuple(spec)
+    if key not in _ICES:
+        from pyrex import ice_model as M
+        if spec[0] == "custom":
+            _ICES[key] = M.AntarcticIce(n0=spec[1], k=spec[2], a=spec[3])
+        elif spec[0] == "uniform":
+            _ICES[key] = M.UniformIce(spec[1])
+        elif spec[0] == "greenland":
+            _ICES[key] = M.GreenlandIce()
+        elif spec[0] == "arasim":
+            _ICES[key] = M.ArasimIce()
+        else:
+            raise ValueError("unknown ice spec %r" % (spec,))
+    return _ICES[key]
+
+
 def n_of(c):
-    return float(ice().index(c["z"]))
+    return float(ice_of(c).index(c["z"]))
 
 
 def thc_of(c):
@@ -120,6 +161,78 @@ def psi_of(c):
     return float(c["sgn"] * (thc_of(c) + c["dpsi"]))
 
 
+class mem_cap:
+    """soft address-space cap (what the process maps now + 3 GiB) while the implementation runs, so that a changed
+    tree which asks for an absurd amount of memory ends in MemoryError (reported as a failing input with a replay)
+    instead of exhausting the machine.  Re-entrant; the Lean driver subprocesses are started outside it."""
+    depth = 0
+    saved = None
+
+    def __enter__(self):
+        import resource
+        if mem_cap.depth == 0:
+            try:
+                mem_cap.saved = resource.getrlimit(resource.RLIMIT_AS)
+                with open("/proc/self/statm") as f:
+                    now = int(f.read().split()[0]) * resource.getpagesize()
+                cap = now + (3 << 30)
+                if mem_cap.saved[1] != resource.RLIM_INFINITY:
+                    cap = min(cap, mem_cap.saved[1])
+                resource.setrlimit(resource.RLIMIT_AS, (cap, mem_cap.saved[1]))
+            except (ValueError, OSError):
+                mem_cap.saved = None
+        mem_cap.depth += 1
+        return self
+
+    def __exit__(self, *a):
+        import resource
+        mem_cap.depth -= 1
+        if mem_cap.depth == 0 and mem_cap.saved is not None:
+            resource.setrlimit(resource.RLIMIT_AS, mem_cap.saved)
+        return False
+
+
+def capped(fn):
+    def wrapper(*a, **k):
+        with mem_cap():
+            return fn(*a, **k)
+    wrapper.__name__ = fn.__name__
+    wrapper.__doc__ = fn.__doc__
+    return wrapper
+
+
+class SkipCase(Exception):
+    """the case is outside the generator's bounds (not evaluated, not a verdict)"""
+
+
+MAX_SAMPLES = 2_000_000
+
+
+def arz_predicted_samples(c, over=None):
+    """number of sub-samples N*dt_divider (+ n_Q) that the *unchanged* ARZ code needs off the cone: near the critical
+    energy max_length -> 0 and dt_divider = 100 dt / max_length / z_to_t grows without bound; such cases are kept
+    out of the generators (bound: MAX_SAMPLES)"""
+    o = over or {}
+    psi = o.get("psi", psi_of(c))
+    theta = abs(psi)
+    n = n_of(c)
+    if abs(theta - float(np.arccos(1 / n))) <= 4.6e-7:
+        return 0
+    E = o.get("E", c["E"])
+    dt = float(o["times"][1] - o["times"][0]) if "times" in o else c["dt"]
+    N = (len(o["times"]) if "times" in o else c["N"]) + 1
+    worst = 0
+    for en in (E * o.get("em", c["em"]), E * o.get("had", c["had"])):
+        if not en > 0.0786:
+            continue
+        try:
+            d, z_to_t, dz, xq, xn = arz_divider(en, dt, theta, n)
+            worst = max(worst, N * d + xn * 2)
+        except (ZeroDivisionError, OverflowError, ValueError, FloatingPointError):
+            return float("inf")
+    return worst
+
+
 def values(kind, c, **over):
     """the implementation's values for case `c` (keys of `over` replace derived inputs)"""
     cls = _classes()[kind]
@@ -130,9 +243,11 @@ def values(kind, c, **over):
     E = over.get("E", c["E"])
     em = over.get("em", c["em"])
     had = over.get("had", c["had"])
-    with warnings.catch_warnings():
+    if kind == "arz" and not arz_predicted_samples(c, over) <= MAX_SAMPLES:
+        raise SkipCase("ARZ would need more than %d sub-samples" % MAX_SAMPLES)
+    with warnings.catch_warnings(), mem_cap():
         warnings.simplefilter("ignore")
-        return np.array(cls(times, mkp(E, em, had, c["z"]), psi, R, ice(), t0).values, dtype=float)
+        return np.array(cls(times, mkp(E, em, had, c["z"]), psi, R, ice_of(c), t0).values, dtype=float)
 
 
 # --------------------------------------------------------------------------------------------
@@ -160,7 +275,7 @@ def arz_safe(c):
     theta = abs(psi_of(c))
     n = n_of(c)
     if abs(theta - thc_of(c)) <= 4.6e-7:
-        return abs(theta - thc_of(c)) < 1e-12
+        return abs(theta - thc_of(c)) < 2.1e-7 and c.get("psi") is None
     t_start = grid(c)[0] - t0_of(c)
     for en in (c["E"] * c["em"], c["E"] * c["had"]):
         if en == 0:
@@ -196,12 +311,16 @@ def gen_case(run, kind, small=True, inside=False):
         else:
             c["em"], c["had"] = r.choice([0.0, r.uniform(0.02, 0.6)]), r.uniform(0.02, 0.4)
         c["z"] = -r.uniform(5, 2800)
+        c["ice"] = r.choice([None, None, ["custom", round(r.uniform(1.45, 2.1), 3), round(r.uniform(0.1, 0.4), 3),
+                                          round(10 ** r.uniform(-2.5, -1.5), 5)],
+                             ["uniform", round(r.uniform(1.2, 2.2), 3)], ["greenland"], ["arasim"]])
         c["R"] = 10 ** r.uniform(0, 4)
         am = r.choice(["cone", "near", "near", "off", "off", "uniform", "special"])
         c["sgn"] = r.choice([1, 1, -1])
         c["psi"] = None
         if am == "cone":
-            c["dpsi"] = 0.0
+            # exactly on the cone, or inside the +-4.5e-7 rad window in which ARZ uses the on-cone shortcut
+            c["dpsi"] = r.choice([0.0, 0.0, r.choice([-1, 1]) * 10 ** r.uniform(-13, -11)])
         elif am == "near":
             c["dpsi"] = r.choice([-1, 1]) * 10 ** r.uniform(-4, -1.3)
         elif am == "off":
@@ -243,7 +362,8 @@ def gen_case(run, kind, small=True, inside=False):
 
 def desc(kind, c):
     return (kind,) + tuple(round(float(c[k]), 15) if isinstance(c[k], float) else c[k]
-                           for k in ("E", "em", "had", "z", "R", "sgn", "dpsi", "psi", "N", "dt", "off", "k", "frac"))
+                           for k in ("E", "em", "had", "z", "R", "sgn", "dpsi", "psi", "N", "dt", "off", "k", "frac")) \
+        + (str(c.get("ice")),)
 
 
 def request(kind, c):
@@ -314,12 +434,20 @@ def corr_pulses(run):
     for kind, n in plan:
         for i in range(n):
             c = gen_case(run, kind, small=(not run.thorough()) or i % 3 != 0)
+            if kind != "arz" and i % 11 == 7:
+                # exactly at / next to the cut |shift| > len(trace) of ZHS and AVZ
+                c["k"] = c["N"] // 2 + run.rng.choice([-1, 1]) * c["N"] + run.rng.choice([-2, -1, 0, 1, 2])
+                c["pos"] = "far"
+                run.count("pulse_cut_boundary")
             if i % 17 == 5:
                 c["E"] = 0.0 if i % 2 else c["E"]
                 if c["E"]:
                     c["em"], c["had"] = 0.0, 0.0
             try:
                 v = values(kind, c)
+            except SkipCase:
+                run.count("skipped_too_large")
+                continue
             except Exception as e:  # the property says these never raise; the search reports it with a replay
                 run.note_broken("correspondence: %s raised %s for %s" % (kind, repr(e)[:200], c))
                 ok = False
@@ -423,8 +551,8 @@ def corr_arz_bookkeeping(run):
         t0 = t0_of(c)
         theta = abs(psi_of(c))
         n = n_of(c)
-        sig = Z(times, mkp(1e6, 1, 0, c["z"]), theta, c["R"], ice(), t0)
-        with warnings.catch_warnings():
+        sig = Z(times, mkp(1e6, 1, 0, c["z"]), theta, c["R"], ice_of(c), t0)
+        with warnings.catch_warnings(), mem_cap():
             warnings.simplefilter("ignore")
             out = np.array(sig.shower_signal(times=times, energy=energy, profile_function=wprof,
                                              potential_function=wrac, viewing_angle=theta,
@@ -555,9 +683,12 @@ def rel_check(run, kind, c, relation, deep=False):
     failure (observed / expected / known-finding key)"""
     try:
         return _rel_check(kind, c, relation)
+    except SkipCase:
+        run.count("skipped_too_large")
+        return None
     except Exception as e:   # any exception is a failure of "fails gracefully"
-        if isinstance(e, (KeyboardInterrupt, MemoryError)):
-            raise
+        if isinstance(e, KeyboardInterrupt):
+            raise      # (MemoryError under the 8 GiB cap of `mem_cap` is a failure of the code, not of the machine)
         return {"observed": "exception %s" % repr(e)[:300], "expected": "a finite array of len(times)",
                 "what": "%s: %s raised %s" % (kind, relation, type(e).__name__),
                 "key": "K12" if in_k12(kind, c) else None}
@@ -591,7 +722,234 @@ def ref_peak(kind, c):
         return 0.0
 
 
+def _mk(kind, c, **over):
+    """(signal object, times array given to it) for case `c`"""
+    cls = over.get("cls", _classes()[kind])
+    times = over.get("times", grid(c))
+    p = over.get("particle", None) or mkp(over.get("E", c["E"]), c["em"], c["had"], c["z"])
+    return cls(times, p, over.get("psi", psi_of(c)), over.get("R", c["R"]), ice_of(c), over.get("t0", t0_of(c))), times
+
+
+def forms_check(kind, c):
+    """call forms, aliases, defaults, caller-owned inputs, state across calls, re-gridding: every way of asking
+    for the same pulse gives the same values"""
+    from pyrex import askaryan as A
+    from pyrex import ice_model as M
+    cls = _classes()[kind]
+    Ei, Ri = float(int(c["E"])), float(max(1, int(c["R"])))
+    cc = dict(c)
+    cc["E"], cc["R"] = Ei, Ri
+    times = grid(cc)
+    keep = times.copy()
+    t0, psi = t0_of(cc), psi_of(cc)
+
+    def bad(name, got, exp, tol=1e-12):
+        got = np.asarray(got, dtype=float)
+        scl = float(np.max(np.abs(exp))) if len(exp) else 0.0
+        if got.shape != exp.shape or not np.all(np.abs(got - exp) <= tol * scl + 1e-300):
+            i = int(np.argmax(np.abs(got - exp))) if got.shape == exp.shape else -1
+            return {"observed": {"form": name, "index": i,
+                                 "values": [float(exp[i]), float(got[i])] if i >= 0 else [len(exp), len(got)]},
+                    "expected": "the same values as the plain call",
+                    "what": "%s: %s changes the values" % (kind, name)}
+        return None
+    with warnings.catch_warnings(), mem_cap():
+        warnings.simplefilter("ignore")
+        p = mkp(Ei, cc["em"], cc["had"], cc["z"])
+        sig = cls(times, p, psi, Ri, ice_of(cc), t0)
+        base = np.array(sig.values, dtype=float)
+        if not np.all(np.isfinite(base)):
+            return None
+        if not np.array_equal(times, keep):
+            return {"observed": "the caller's times array was modified", "expected": "inputs untouched",
+                    "what": "%s: constructor / evaluation modifies the caller's times array" % kind}
+        if not np.array_equal(np.asarray(sig.times), keep):
+            return {"observed": "signal.times differs from the times given", "expected": "times kept",
+                    "what": "%s: the signal's times are not the given times" % kind}
+        variants = [
+            ("a second read of .values", lambda: sig.values),
+            ("times given as a list", lambda: cls(list(times), p, psi, Ri, ice_of(cc), t0).values),
+            ("times given as a tuple", lambda: cls(tuple(times), p, psi, Ri, ice_of(cc), t0).values),
+            ("keyword arguments", lambda: cls(times=times, particle=p, viewing_angle=psi, viewing_distance=Ri,
+                                              ice_model=ice_of(cc), t0=t0).values),
+            ("Python-int energy and distance", lambda: cls(times, mkp(int(Ei), cc["em"], cc["had"], cc["z"]), psi,
+                                                           int(Ri), ice_of(cc), t0).values),
+            ("numpy-integer energy and distance", lambda: cls(times, mkp(np.int64(Ei), cc["em"], cc["had"], cc["z"]),
+                                                              psi, np.int64(Ri), ice_of(cc), t0).values),
+            ("0-d array angle, distance and t0", lambda: cls(times, p, np.array(psi), np.array(Ri), ice_of(cc),
+                                                            np.array(t0)).values),
+            ("numpy scalar angle, distance and t0", lambda: cls(times, p, np.float64(psi), np.float64(Ri),
+                                                               ice_of(cc), np.float64(t0)).values),
+            ("a tuple vertex", lambda: cls(times, _with_vertex(p, tuple), psi, Ri, ice_of(cc), t0).values),
+            ("a fresh object after other pulses were evaluated (state kept across calls)",
+             lambda: _after_others(kind, cc, cls, times, psi, Ri, t0, Ei)),
+            ("re-use of one particle object for a second signal", lambda: cls(times, p, psi, Ri, ice_of(cc), t0).values),
+        ]
+        if kind == "arz":
+            variants += [("the alias AskaryanSignal", lambda: A.AskaryanSignal(times, p, psi, Ri, ice_of(cc), t0).values),
+                         ("the deprecated alias ARVZAskaryanSignal",
+                          lambda: A.ARVZAskaryanSignal(times, p, psi, Ri, ice_of(cc), t0).values),
+                         ("ARVZAskaryanSignal with keywords",
+                          lambda: A.ARVZAskaryanSignal(times=times, particle=p, viewing_angle=psi,
+                                                       viewing_distance=Ri, ice_model=ice_of(cc), t0=t0).values)]
+        for name, fn in variants:
+            r_ = bad(name, fn(), base)
+            if r_ is not None:
+                return r_
+        # omitted optional arguments = their documented defaults (R = 1, module-level ice, t0 = 0)
+        d1 = np.array(cls(times, p, psi).values, dtype=float)
+        d2 = np.array(cls(times, p, psi, 1, M.ice, 0).values, dtype=float)
+        r_ = bad("omitting viewing_distance / ice_model / t0 (defaults 1, pyrex.ice_model.ice, 0)", d1, d2)
+        if r_ is not None:
+            return r_
+        # the same signal object asked for another grid = a fresh signal on that grid
+        g2 = dict(cc)
+        g2["N"] = cc["N"] + (3 if cc["N"] % 2 else 4)
+        g2["off"] = cc["off"] - 2 * cc["dt"]
+        t2 = grid(g2)
+        fresh = np.array(cls(t2, p, psi, Ri, ice_of(cc), t0).values, dtype=float)
+        r_ = bad("with_times(new grid) instead of a fresh signal", sig.with_times(t2).values, fresh, 1e-9)
+        if r_ is not None:
+            return r_
+        sig.times = t2
+        r_ = bad("assigning signal.times = new grid instead of a fresh signal", sig.values, fresh, 1e-9)
+        if r_ is not None:
+            return r_
+    return None
+
+
+def _with_vertex(p, kind_):
+    q = mkp(p.energy, p.interaction.em_frac, p.interaction.had_frac, p.vertex[2])
+    q.vertex = kind_(float(x) for x in p.vertex)
+    return q
+
+
+def _after_others(kind, cc, cls, times, psi, Ri, t0, Ei):
+    """evaluate differently parameterised pulses on the same and on other grids first"""
+    for dR, dE, dk, dN in ((2.0, 3.0, 1, 0), (0.5, 0.1, -2, 1)):
+        o = dict(cc)
+        o["N"] = cc["N"] + dN
+        o["k"] = cc["k"] + dk
+        cls(grid(o), mkp(Ei * dE, cc["had"], cc["em"], cc["z"] * 0.9), -psi * 0.97, Ri * dR, ice_of(cc), t0_of(o)).values
+    # identical in everything but the vertex depth / the ice model (the index at the vertex, hence theta_c)
+    from pyrex import ice_model as M
+    cls(times, mkp(Ei, cc["em"], cc["had"], cc["z"] * 0.5 - 3.0), psi, Ri, ice_of(cc), t0).values
+    cls(times, mkp(Ei, cc["em"], cc["had"], cc["z"]), psi, Ri, M.UniformIce(1.37), t0).values
+    return cls(times, mkp(Ei, cc["em"], cc["had"], cc["z"]), psi, Ri, ice_of(cc), t0).values
+
+
+def order_check(kind, c):
+    """state kept across calls: a family of pulses that differ from `c` in exactly one ingredient is evaluated in
+    one order on the live classes and, after `importlib.reload(pyrex.askaryan)` (fresh classes, empty class- and
+    module-level state), in the reverse order; every pulse must come out bitwise the same"""
+    import importlib
+    from pyrex import askaryan as A
+    c = dict(c)
+    c["psi"] = psi_of(c)          # absolute viewing angle: depth and ice then change theta_c only
+    fam = [dict(c)]
+    # (single-ingredient variants; each is first in one of the two passes relative to the case itself, and the
+    # depth / ice variants are first of all in the second pass)
+    for key, val in (("R", c["R"] * 1.5), ("E", c["E"] * 2), ("frac", 0.5 * (c["frac"] + 0.5)), ("psi", -c["psi"]),
+                     ("psi", c["psi"] * 0.9), ("N", c["N"] + 2), ("dt", c["dt"] * 1.25),
+                     ("z", c["z"] * 0.5 - 3.0), ("ice", ["uniform", 1.37])):
+        v = dict(c)
+        v[key] = val
+        fam.append(v)
+    v = dict(c)
+    v["em"], v["had"] = c["had"], c["em"]
+    fam.insert(1, v)
+    first = [values(kind, f) for f in fam]
+    try:
+        importlib.reload(A)
+        second = [values(kind, f) for f in reversed(fam)][::-1]
+    finally:
+        importlib.reload(A)
+    for i, (a, b) in enumerate(zip(first, second)):
+        if a.shape != b.shape or not np.array_equal(a, b, equal_nan=True):
+            j = int(np.argmax(np.abs(a - b))) if a.shape == b.shape else -1
+            changed = [k for k in fam[i] if fam[i][k] != c.get(k)]
+            return {"observed": {"member": i, "differs from the case in": changed,
+                                 "values": [float(a[j]), float(b[j])] if j >= 0 else [len(a), len(b)]},
+                    "expected": "the same values whatever was evaluated before",
+                    "what": "%s: the values of a pulse depend on which pulses were evaluated before it" % kind}
+    return None
+
+
+def centre_check(kind, c):
+    """the pulse sits where the shower time says: ZHS is even about t0 (t0 taken on a grid point), AVZ is odd about
+    the sample floor((t0-times[0])/dt)"""
+    N = c["N"]
+    k = c["k"]
+    if kind == "zhs":
+        v = values(kind, c, t0=float(grid(c)[k]))
+        sign = 1.0
+    elif kind == "avz":
+        v = values(kind, c)
+        sign = -1.0
+    else:
+        return None
+    L = N if N % 2 == 0 else N - 1
+    j = np.arange(0, min(k, L - 1 - k) + 1)
+    if len(j) < 3 or not np.all(np.isfinite(v)):
+        return None
+    a, b = v[k + j], sign * v[k - j]
+    scl = float(np.max(np.abs(v)))
+    if scl > 0 and not np.all(np.abs(a - b) <= 1e-9 * scl):
+        i = int(np.argmax(np.abs(a - b)))
+        return {"observed": {"centre index": k, "offset": int(j[i]), "values": [float(v[k + j[i]]), float(v[k - j[i]])],
+                             "peak": scl},
+                "expected": "values[k+j] == %s values[k-j]" % ("+" if sign > 0 else "-"),
+                "what": "%s: the pulse is not centred on the shower time" % kind}
+    return None
+
+
+def far_zero_check(kind, c):
+    """ZHS / AVZ: a shower time so far from the window that |shift| > len(trace) gives an all-zero trace"""
+    if kind not in ("zhs", "avz"):
+        return None
+    N = c["N"]
+    out = None
+    for side in (1, -1):
+        for extra in (2, N, 3 * N + 1, 40 * N):
+            cc = dict(c)
+            cc["k"] = N // 2 + side * (N + extra)
+            v = values(kind, cc)
+            if len(v) != N or np.any(v != 0):
+                out = {"observed": {"k": cc["k"], "len": len(v), "max": float(np.nanmax(np.abs(v))) if len(v) else None},
+                       "expected": "%d zeros" % N,
+                       "what": "%s: a shower time far outside the window does not give an all-zero trace" % kind}
+    return out
+
+
+def raises_check(kind, c):
+    """|viewing angle| > pi is rejected with ValueError; exactly +-pi is accepted"""
+    cls = _classes()[kind]
+    for psi, must in ((math.pi, False), (-math.pi, False), (float(np.nextafter(math.pi, 4)), True),
+                      (-3.5, True), (7.0, True)):
+        try:
+            with warnings.catch_warnings():
+                warnings.simplefilter("ignore")
+                cls(grid(c), mkp(c["E"], c["em"], c["had"], c["z"]), psi, c["R"], ice_of(c), t0_of(c))
+            raised = False
+        except ValueError:
+            raised = True
+        if raised != must:
+            return {"observed": {"viewing_angle": psi, "raised ValueError": raised}, "expected": {"raised": must},
+                    "what": "%s: viewing angles beyond +-pi are %s" % (kind, "accepted" if must else "rejected at pi")}
+    return None
+
+
 def _rel_check(kind, c, relation):
+    if relation == "forms":
+        return forms_check(kind, c)
+    if relation == "order":
+        return order_check(kind, c)
+    if relation == "centre":
+        return centre_check(kind, c)
+    if relation == "far_zero":
+        return far_zero_check(kind, c)
+    if relation == "raises":
+        return raises_check(kind, c)
     base = values(kind, c)
     N = c["N"]
     sc = float(np.max(np.abs(base))) if len(base) else 0.0
@@ -781,7 +1139,8 @@ def position_check(kind, c):
     return None
 
 
-RELATIONS = ("finite", "inv_distance", "even", "joint_shift", "move", "zero_energy", "linear_E", "cone_max", "position")
+RELATIONS = ("finite", "inv_distance", "even", "joint_shift", "move", "zero_energy", "linear_E", "cone_max", "position",
+             "forms", "centre", "far_zero", "raises", "order")
 
 
 def report(run, kind, c, relation, res):
@@ -794,6 +1153,7 @@ def report(run, kind, c, relation, res):
                    what=res.get("what"), finding_key=res.get("key"))
 
 
+@capped
 def search(run, deep):
     r = run.rng
     n = run.scale(70, 400) if not deep else 400
@@ -850,6 +1210,18 @@ def search(run, deep):
             res = rel_check(run, kind, c, "cone_max")
             if res is not None:
                 report(run, kind, c, "cone_max", res)
+    # call forms / aliases / defaults / caller-owned inputs / state across calls / re-gridding; pulse centring;
+    # far-away shower times; rejected angles
+    for kind in KINDS:
+        for i in range(run.scale(8, 60) if not deep else 60):
+            c = gen_case(run, "zhs" if kind != "arz" else "arz", small=True, inside=True)
+            c["k"] = r.randint(5, c["N"] - 6)
+            run.case(("forms",) + desc(kind, c))
+            run.count("search_forms_" + kind)
+            for rel in ("forms", "centre", "far_zero") + (("raises", "order") if i % 4 == 0 else ()):
+                res = rel_check(run, kind, c, rel)
+                if res is not None:
+                    report(run, kind, c, rel, res)
     # ARZ off the cone: position and shape against an independent quadrature of the convolution integral
     for i in range(run.scale(40, 300) if not deep else 300):
         c = gen_case(run, "zhs", small=True, inside=True)      # (no int()-boundary filtering needed here)
@@ -897,6 +1269,7 @@ def search(run, deep):
 
 
 # --------------------------------------------------------------------------------------------
+@capped
 def known_probes(run):
     """re-run the specific failing inputs of the recorded findings"""
     # K5: AVZ, odd N, pulse near the end of the window: only the last sample breaks the whole-sample move
@@ -943,6 +1316,7 @@ def known_probes(run):
             run.known_finding("K13")
 
 
+@capped
 def replay(run, data):
     inp = data["input"]
     res = rel_check(run, inp["model"], inp["case"], inp["relation"])
